@@ -881,8 +881,18 @@ func (env *Env) call(c *ECall) Val {
 		return Val{fmt.Sprintf("(= (i.tag %s) 0)", v.S), tBool}
 	case "allocated":
 		need(1)
-		v := arg(0)
-		return Val{fmt.Sprintf("(select %s %s)", env.ex.compGet(env.st, g.allocComp()), v.S), tBool}
+		v := env.value(arg(0))
+		ref := v.S
+		if v.G.T != nil {
+			if _, isSl := v.G.T.Underlying().(*types.Slice); isSl {
+				ref = fmt.Sprintf("(s.arr %s)", v.S) // a slice is "allocated" when its backing array is
+			}
+		}
+		return Val{fmt.Sprintf("(select %s %s)", env.ex.compGet(env.st, g.allocComp()), ref), tBool}
+	case "sameArray": // two slices share their backing array
+		need(2)
+		a, b := env.value(arg(0)), env.value(arg(1))
+		return Val{fmt.Sprintf("(= (s.arr %s) (s.arr %s))", a.S, b.S), tBool}
 	case "int", "uint64", "int64", "uint32", "uint", "int32", "uint8", "byte", "uint16":
 		need(1)
 		v := env.value(arg(0))
